@@ -64,18 +64,18 @@ def run(ck):
     # ------------------------------------------------------------------ M1
     nmax = 5 if quick else 6
     r_all = bm.run_bagtrain(ck, "regroup-all-n<=%d-K<=3" % nmax, gen=(1, nmax, 3), coverage=cov)
-    regroup = list(r_all.records)
+    regroup = bm.distinct_records(r_all)
     want = sum(len(bm.surjective_labellings(n, k)) * 2 ** (n - 1) for n in range(1, nmax + 1) for k in (1, 2, 3))
     if len(regroup) != want:
         raise tlc.MachineryError("regroup run exported %d scenarios, expected %d" % (len(regroup), want))
     empties = empty_partition_scenarios(rng, 40 if quick else 300)
     r_emp = bm.run_bagtrain(ck, "regroup-empty-partitions", scn=empties, coverage=cov)
-    regroup_empty = list(r_emp.records)
+    regroup_empty = bm.distinct_records(r_emp)
 
     em_scn = em_scenarios(rng, quick)
     r_em = bm.run_bagtrain(ck, "em-orders-modes", scn=em_scn, modes=("Shared", "Isolated"), kinds=("ISV", "JFA"),
                            iters=(1, 2), max_orders=216, coverage=cov)
-    behaviours = list(r_em.records)
+    behaviours = bm.distinct_records(r_em)
     for need in (("ISV", "Shared"), ("ISV", "Isolated"), ("JFA", "Shared"), ("JFA", "Isolated")):
         if not any((b["kind"], b["mode"]) == need for b in behaviours):
             raise tlc.MachineryError("no exported behaviour for %s/%s" % need)
@@ -97,7 +97,7 @@ def run(ck):
                     export=False, expect_violation=True)
 
     r_pt = bm.run_pairtree(ck, "pairtree-1..64", 64, coverage=True)
-    tree_recs = list(r_pt.records)
+    tree_recs = bm.distinct_records(r_pt)
     trees = {rec["L"]: rec for rec in tree_recs}
     if sorted(trees) != list(range(1, 65)) or len(tree_recs) != 64 * 2 * 2:
         raise tlc.MachineryError("PairTree exported %d behaviours, lengths %s" % (len(tree_recs), sorted(trees)))
